@@ -23,6 +23,10 @@ Fxpp == <<120, 37, 37>>                       \* "x%%": a format without operand
 QOps == { SSafeString(<<A>>), SSafeString(StartM), SSafeString(<<194, 186>>), SUnsafeString(<<A>> \o RuneErrorBytes), SSafeUint(76, -1), SSafeString(<<A>> \o EndM), SUnsafeString(<<A>>), SUnsafeString(<<NL, A>>), SUnsafeString(<<>>),
           SUnsafeString(EndM), SSafeRune(8250), SUnsafeRune(233), SUnsafeRune(NL), SUnsafeByte(226), SSafeInt(71, 41),
           SPrint(<<StrT(1, <<A, NL>>)>>), SPrint(<<TSafe(90, StrT(2, <<A>>))>>), SPrintf(Fxvy, <<IntT(2)>>), SWrite(<<A>>), SWriteStr(<<NL, A>>), SWriteByte(A), SWriteRune(8250), SUnsafeBytes(<<A, NL, A>>), SPrintf(Fxpp, <<>>),
+          \* (every method of the SafeWriter interface at least once in the quick set)
+          SSafeByte(A), SSafeBytes(<<A>>), SSafeFloat(77),
+          \* a marker assembled from two safe calls: its first byte alone, then the rest
+          SSafeByte(226), SSafeString(<<128, 185>>),
           \* joining: a slice, a nil operand
           SJoinTo(<<44>>, 160, TSlice(161, <<TStr(162, <<A>>), TInt(163, 46)>>)), SJoinTo(<<44>>, 160, TNil(164)) }
 TOps == QOps \cup { SSafeString(<<NL>>), SSafeBytes(Cross), SUnsafeBytes(<<A, 226>>), SSafeByte(A), SUnsafeString(<<PTok + 5>>),
